@@ -1,60 +1,60 @@
 (* XrefMergeProofs.v -- C07, abstract core: Xref::merge over a Prev chain gives every object number
    the entry of the NEWEST section that has one; the Prev loop computes exactly that fold on every
    chain, stops on cycles, and never runs out of the fuel [load_fuel]. *)
-From LV Require Import Base.Bytes Base.Sx Model.Obj Model.XrefMerge.
+From LV Require Import Base.Bytes Base.Sx Model.Obj Model.Save Model.XrefMerge.
 
 (* ---------- the table ---------- *)
-Lemma xt_get_insert m k e k' :
-  xt_get (xt_insert m k e) k' = if (k =? k')%N then Some e else xt_get m k'.
+Lemma xget_insert m k e k' :
+  xget (xinsert m k e) k' = if (k =? k')%N then Some e else xget m k'.
 Proof.
-  induction m as [|[a ea] m IH]; cbn [xt_insert xt_get].
+  induction m as [|[a ea] m IH]; cbn [xinsert xget].
   - reflexivity.
   - destruct (a =? k)%N eqn:Eak.
-    + apply N.eqb_eq in Eak; subst a. cbn [xt_get]. destruct (k =? k')%N; reflexivity.
+    + apply N.eqb_eq in Eak; subst a. cbn [xget]. destruct (k =? k')%N; reflexivity.
     + destruct (k <? a)%N.
-      * cbn [xt_get]. destruct (k =? k')%N; reflexivity.
-      * cbn [xt_get]. rewrite IH. destruct (a =? k')%N eqn:Eak'; [|reflexivity].
+      * cbn [xget]. destruct (k =? k')%N; reflexivity.
+      * cbn [xget]. rewrite IH. destruct (a =? k')%N eqn:Eak'; [|reflexivity].
         apply N.eqb_eq in Eak'; subst a. rewrite N.eqb_sym, Eak. reflexivity.
 Qed.
 
-Lemma xt_get_or_insert m k e k' :
-  xt_get (xt_or_insert m k e) k' =
-  match xt_get m k' with Some e' => Some e' | None => if (k =? k')%N then Some e else None end.
+Lemma xget_or_insert m k e k' :
+  xget (xt_or_insert m k e) k' =
+  match xget m k' with Some e' => Some e' | None => if (k =? k')%N then Some e else None end.
 Proof.
-  unfold xt_or_insert. destruct (xt_get m k) eqn:G.
-  - destruct (xt_get m k') eqn:G'; [reflexivity|].
+  unfold xt_or_insert. destruct (xget m k) eqn:G.
+  - destruct (xget m k') eqn:G'; [reflexivity|].
     destruct (k =? k')%N eqn:E; [|reflexivity]. apply N.eqb_eq in E; subst. congruence.
-  - rewrite xt_get_insert. destruct (k =? k')%N eqn:E.
+  - rewrite xget_insert. destruct (k =? k')%N eqn:E.
     + apply N.eqb_eq in E; subst. rewrite G. reflexivity.
-    + destruct (xt_get m k'); reflexivity.
+    + destruct (xget m k'); reflexivity.
 Qed.
 
 (* Xref::merge = "insert if absent", pointwise *)
-Lemma xt_get_merge b : forall a k,
-  xt_get (xt_merge a b) k = match xt_get a k with Some e => Some e | None => xt_get b k end.
+Lemma xget_merge b : forall a k,
+  xget (xt_merge a b) k = match xget a k with Some e => Some e | None => xget b k end.
 Proof.
-  unfold xt_merge. induction b as [|[kb eb] b IH]; intros a k; cbn [fold_left fst snd xt_get].
-  - destruct (xt_get a k); reflexivity.
-  - rewrite IH, xt_get_or_insert. destruct (xt_get a k); [reflexivity|].
+  unfold xt_merge. induction b as [|[kb eb] b IH]; intros a k; cbn [fold_left fst snd xget].
+  - destruct (xget a k); reflexivity.
+  - rewrite IH, xget_or_insert. destruct (xget a k); [reflexivity|].
     destruct (kb =? k)%N; reflexivity.
 Qed.
 
 (* the entry of the newest table (first in the list) that has one *)
-Fixpoint first_def (tabs : list xtab) (k : N) : option xentry :=
+Fixpoint first_def (tabs : list xmap) (k : N) : option xentry :=
   match tabs with
   | [] => None
-  | t :: tabs' => match xt_get t k with Some e => Some e | None => first_def tabs' k end
+  | t :: tabs' => match xget t k with Some e => Some e | None => first_def tabs' k end
   end.
 
 (* merge_chain_latest: for ALL chains of sections (x0 the newest, then the Prev chain in the order
    the loop reads it) and all object numbers *)
 Theorem merge_chain_latest : forall (revs : list xref) (x0 : xref) (k : N),
-  xt_get (xr_entries (fold_left xmerge revs x0)) k = first_def (map xr_entries (x0 :: revs)) k.
+  xget (xr_entries (fold_left xmerge revs x0)) k = first_def (map xr_entries (x0 :: revs)) k.
 Proof.
   induction revs as [|r revs IH]; intros x0 k; cbn [fold_left map first_def].
-  - destruct (xt_get (xr_entries x0) k); reflexivity.
-  - rewrite IH. cbn [map first_def xmerge xr_entries]. rewrite xt_get_merge.
-    destruct (xt_get (xr_entries x0) k); reflexivity.
+  - destruct (xget (xr_entries x0) k); reflexivity.
+  - rewrite IH. cbn [map first_def xmerge xr_entries]. rewrite xget_merge.
+    destruct (xget (xr_entries x0) k); reflexivity.
 Qed.
 
 (* the merged table never changes type or declared size: both come from the newest section *)
@@ -63,7 +63,7 @@ Proof. induction revs; intros; cbn [fold_left]; [reflexivity|]. rewrite IHrevs. 
 
 (* a free entry is no entry: a section that frees k does not hide an older definition *)
 Lemma parse_entries_get_aux stream raw : forall m k,
-  xt_get (fold_left (keep_entry stream) raw m) k =
+  xget (fold_left (keep_entry stream) raw m) k =
   fold_left (fun acc kv =>
                if (fst kv =? k)%N then
                  match snd kv with
@@ -71,25 +71,25 @@ Lemma parse_entries_get_aux stream raw : forall m k,
                  | RNormal off g =>
                    if stream then Some (XNormal off (g mod 65536))
                    else if (g <? 65536)%N then Some (XNormal off g) else acc
-                 | RComp c i => if stream then Some (XComp c (i mod 65536)) else acc
+                 | RComp c i => if stream then Some (XCompressed c (i mod 65536)) else acc
                  end
-               else acc) raw (xt_get m k).
+               else acc) raw (xget m k).
 Proof.
   induction raw as [|[i e] raw IH]; intros m k; cbn [fold_left]; [reflexivity|].
   rewrite IH. f_equal. unfold keep_entry; cbn [fst snd].
   destruct e as [g|off g|c idx].
   - destruct (i =? k)%N; reflexivity.
   - destruct stream.
-    + rewrite xt_get_insert. destruct (i =? k)%N; reflexivity.
-    + destruct (g <? 65536)%N; [rewrite xt_get_insert|]; destruct (i =? k)%N; reflexivity.
-  - destruct stream; [rewrite xt_get_insert|]; destruct (i =? k)%N; reflexivity.
+    + rewrite xget_insert. destruct (i =? k)%N; reflexivity.
+    + destruct (g <? 65536)%N; [rewrite xget_insert|]; destruct (i =? k)%N; reflexivity.
+  - destruct stream; [rewrite xget_insert|]; destruct (i =? k)%N; reflexivity.
 Qed.
 
 Lemma only_free_no_entry stream raw k :
   (forall e, In (k, e) raw -> exists g, e = RFree g) ->
-  xt_get (parse_entries stream raw) k = None.
+  xget (parse_entries stream raw) k = None.
 Proof.
-  intro H. unfold parse_entries. rewrite parse_entries_get_aux. cbn [xt_get].
+  intro H. unfold parse_entries. rewrite parse_entries_get_aux. cbn [xget].
   assert (G : forall acc, acc = None ->
     fold_left (fun acc kv =>
                if (fst kv =? k)%N then
@@ -98,7 +98,7 @@ Proof.
                  | RNormal off g =>
                    if stream then Some (XNormal off (g mod 65536))
                    else if (g <? 65536)%N then Some (XNormal off g) else acc
-                 | RComp c i => if stream then Some (XComp c (i mod 65536)) else acc
+                 | RComp c i => if stream then Some (XCompressed c (i mod 65536)) else acc
                  end
                else acc) raw acc = None).
   { induction raw as [|[i e] raw IH]; intros acc Hacc; cbn [fold_left]; [exact Hacc|].
